@@ -12,6 +12,20 @@ Encoding assumptions (reported in every evidence file):
 from __future__ import annotations
 import z3
 
+# Select on a lambda-defined array is beta-reduced eagerly (framed heaps are lambda arrays; leaving the
+# redex to the solver makes dispatch queries slow or inconclusive)
+_orig_select = z3.Select
+
+
+def _select(a, *idx):
+    if z3.is_quantifier(a) and a.is_lambda() and len(idx) == a.num_vars():
+        body = z3.substitute_vars(a.body(), *[i if isinstance(i, z3.ExprRef) else z3.IntVal(i) for i in reversed(idx)])
+        return z3.simplify(body)
+    return _orig_select(a, *idx)
+
+
+z3.Select = _select
+
 # ----------------------------------------------------------------------------------------------
 # The universal value sort
 # ----------------------------------------------------------------------------------------------
@@ -87,6 +101,10 @@ def fresh(prefix, sort=None):
     return z3.Const(f"{prefix}!{_fresh_n[0]}", sort if sort is not None else V)
 
 
+def _Vsort():
+    return V
+
+
 class Heap:
     """All heap components are z3 terms; `fld`/`has` map attribute name -> array."""
 
@@ -108,6 +126,14 @@ class Heap:
         self.fld = {}
         self.has = {}
         self.tag = tag
+        # closure of the base heap: references stored in it denote objects that existed (id <= floor)
+        r, i = z3.Int("r!cl"), z3.Int("i!cl")
+        k = z3.Const("k!cl", _Vsort())
+        e1 = z3.Select(z3.Select(self.larr, r), i)
+        e2 = z3.Select(z3.Select(self.dval, r), k)
+        e3 = z3.Select(z3.Select(self.dord, r), i)
+        for e, vs in ((e1, [r, i]), (e2, [r, k]), (e3, [r, i])):
+            self.axioms.append(z3.ForAll(vs, z3.Implies(_Vsort().is_ref(e), _Vsort().id(e) <= floor), patterns=[e]))
 
     def copy(self):
         h = Heap.__new__(Heap)
@@ -127,6 +153,8 @@ class Heap:
             r = z3.Const("r!has", I)
             self.axioms.append(z3.ForAll([r], z3.Implies(r > self.floor, z3.Not(z3.Select(self.has[name], r))),
                                          patterns=[z3.Select(self.has[name], r)]))
+            e = z3.Select(self.fld[name], r)
+            self.axioms.append(z3.ForAll([r], z3.Implies(V.is_ref(e), V.id(e) <= self.floor), patterns=[e]))
         return self.fld[name]
 
     def hasf(self, name):
